@@ -8,11 +8,19 @@ package main
 
 import (
 	"bytes"
+	"crypto/ecdsa"
+	"crypto/elliptic"
+	"crypto/rand"
+	"crypto/x509"
+	"crypto/x509/pkix"
+	"encoding/pem"
 	"errors"
 	"fmt"
+	"math/big"
 	"os"
 	"sort"
 	"strings"
+	"time"
 
 	"github.com/nginx/kubernetes-ingress/internal/configs"
 	"github.com/nginx/kubernetes-ingress/internal/k8s"
@@ -94,6 +102,41 @@ func (m *recMgr) CreateStreamConfig(name string, content []byte) bool {
 func (m *recMgr) DeleteStreamConfig(name string) { m.del("stream", "s:", name) }
 func (m *recMgr) CreateTLSPassthroughHostsConfig(content []byte) bool {
 	return m.write("tls", "t:", "", content)
+}
+
+// referenced says whether some configuration file on disk names path literally (then NGINX reads the file
+// when it loads its configuration; a file reached through $secret_dir_path is loaded per handshake).
+func (m *recMgr) referenced(path string) bool {
+	for k, content := range m.files {
+		if strings.HasPrefix(k, "x:") {
+			continue
+		}
+		c := string(content)
+		for i := 0; ; {
+			j := strings.Index(c[i:], path)
+			if j < 0 {
+				break
+			}
+			end := i + j + len(path)
+			if end >= len(c) || !strings.ContainsRune("abcdefghijklmnopqrstuvwxyzABCDEFGHIJKLMNOPQRSTUVWXYZ0123456789._/-", rune(c[end])) {
+				return true
+			}
+			i = end
+		}
+	}
+	return false
+}
+
+// CreateSecret records the write of a secret file: kind "secret" when a configuration file on disk names it
+// literally (a change NGINX sees only after a reload), "lazy" otherwise.
+func (m *recMgr) CreateSecret(name string, content []byte, _ os.FileMode) string {
+	path := m.FakeManager.GetFilenameForSecret(name)
+	k := "lazy"
+	if m.referenced(path) {
+		k = "secret"
+	}
+	m.write(k, "x:", name, content)
+	return path
 }
 
 func (m *recMgr) Reload(isEndpointsUpdate bool) error {
@@ -465,6 +508,8 @@ type Op struct {
 	Flag   bool     `json:"flag,omitempty"`
 	Names  []string `json:"names,omitempty"`
 	Files  []string `json:"files,omitempty"`
+	Eager  bool     `json:"eager,omitempty"` // secret: predicted: a configuration file on disk names the file literally
+	Ver    int      `json:"ver,omitempty"`   // secret: content identity
 }
 
 type OpObs struct {
@@ -480,6 +525,8 @@ type Case struct {
 	Class string `json:"class"`
 	Plus  bool   `json:"plus"`
 	DynW  bool   `json:"dynw"`
+	DynS  bool   `json:"dyns"` // -ssl-dynamic-reload
+	MGMT  int    `json:"mgmt"` // Plus, ctl: MGMT ConfigMap names 1: licence, 2: + client certificate, 3: + trusted CA
 	Ops   []Op   `json:"ops,omitempty"`
 	Tasks []Task `json:"tasks,omitempty"`
 	RFail []int  `json:"rfail"`
@@ -634,6 +681,11 @@ func applyOp(cnf *configs.Configurator, m *recMgr, o Op) (obs OpObs) {
 		errs = append(errs, cnf.UpdateVirtualServers(extended(o.Rs).VirtualServerExes, keys(o.Names))...)
 	case "updatetss":
 		errs = append(errs, cnf.UpdateTransportServers(extended(o.Rs).TransportServerExes, keys(o.Names))...)
+	case "secret":
+		sec := tlsSecret("nginx-ingress", "special-"+o.Name, o.Ver)
+		cnf.AddOrUpdateSpecialTLSSecrets(sec, []string{o.Name})
+	case "reload":
+		errs = append(errs, cnf.Reload(nginx.ReloadForOtherUpdate))
 	case "batchdel":
 		if o.Kind == "vs" {
 			errs = append(errs, cnf.BatchDeleteVirtualServers(keys(o.Names))...)
@@ -655,7 +707,7 @@ func repoDir() string {
 
 func runCfg(c *Case) {
 	m := newRecMgr(c.RFail, c.AFail)
-	cnf, err := configs.VerifC12NewConfigurator(repoDir(), m, c.Plus, c.DynW)
+	cnf, err := configs.VerifC12NewConfiguratorSSL(repoDir(), m, c.Plus, c.DynW, c.DynS)
 	if err != nil {
 		c.Obs = map[string]string{"error": err.Error()}
 		return
@@ -672,6 +724,8 @@ func runCfg(c *Case) {
 type gen struct {
 	r          *vh.Rng
 	plus, dynw bool
+	dyns       bool
+	mainOnDisk bool           // an UpdateConfig has written the main configuration
 	sv, ev     map[string]int // last variants given per kind/name: lets updates repeat content on purpose
 }
 
@@ -766,8 +820,17 @@ func (g *gen) op() Op {
 		return Op{Op: "enable"}
 	case x < 79:
 		return Op{Op: "disable"}
-	case x < 84:
+	case x < 82:
+		g.mainOnDisk = true
 		return Op{Op: "updateconfig", MV: g.r.Intn(3), Rs: g.mixed()}
+	case x < 84:
+		if g.r.Chance(1, 3) {
+			return Op{Op: "reload"}
+		}
+		// special TLS secrets: only the default server certificate is named by the main configuration, and literally
+		// only when -ssl-dynamic-reload is off
+		n := vh.Pick(g.r, []string{"default", "wildcard"})
+		return Op{Op: "secret", Name: n, Ver: 1 + g.r.Intn(3), Eager: n == "default" && !g.dyns && g.mainOnDisk}
 	case x < 88:
 		return Op{Op: "reloadbatch", Flag: g.r.Chance(2, 3)}
 	case x < 92:
@@ -794,8 +857,8 @@ func pickFails(r *vh.Rng, horizon int, num, den int) []int {
 }
 
 func genCfg(r *vh.Rng, id int) Case {
-	c := Case{Fam: "cfg", ID: id, Plus: r.Chance(1, 2), DynW: r.Chance(1, 2)}
-	g := &gen{r: r, plus: c.Plus, dynw: c.DynW, sv: map[string]int{}, ev: map[string]int{}}
+	c := Case{Fam: "cfg", ID: id, Plus: r.Chance(1, 2), DynW: r.Chance(1, 2), DynS: r.Chance(1, 2)}
+	g := &gen{r: r, plus: c.Plus, dynw: c.DynW, dyns: c.DynS, sv: map[string]int{}, ev: map[string]int{}}
 	n := 4 + r.Intn(27)
 	switch id % 4 {
 	case 0:
@@ -879,6 +942,42 @@ func corpusCfg() []Case {
 	return out
 }
 
+// ---------------------------------------------------------------- secrets
+
+var tlsCache = map[int][2][]byte{}
+
+// tlsPair returns a valid self-signed certificate and key; the variant only has to differ in content.
+func tlsPair(v int) ([]byte, []byte) {
+	if p, ok := tlsCache[v]; ok {
+		return p[0], p[1]
+	}
+	key, err := ecdsa.GenerateKey(elliptic.P256(), rand.Reader)
+	if err != nil {
+		panic(err)
+	}
+	tmpl := x509.Certificate{SerialNumber: big.NewInt(int64(1000 + v)), Subject: pkix.Name{CommonName: fmt.Sprintf("verif-%d", v)},
+		NotBefore: time.Unix(1700000000, 0), NotAfter: time.Unix(4102444800, 0), IsCA: true, BasicConstraintsValid: true,
+		KeyUsage: x509.KeyUsageDigitalSignature | x509.KeyUsageCertSign}
+	der, err := x509.CreateCertificate(rand.Reader, &tmpl, &tmpl, &key.PublicKey, key)
+	if err != nil {
+		panic(err)
+	}
+	kb, err := x509.MarshalECPrivateKey(key)
+	if err != nil {
+		panic(err)
+	}
+	crt := pem.EncodeToMemory(&pem.Block{Type: "CERTIFICATE", Bytes: der})
+	k := pem.EncodeToMemory(&pem.Block{Type: "EC PRIVATE KEY", Bytes: kb})
+	tlsCache[v] = [2][]byte{crt, k}
+	return crt, k
+}
+
+func tlsSecret(namespace, name string, v int) *api_v1.Secret {
+	crt, key := tlsPair(v)
+	return &api_v1.Secret{ObjectMeta: meta_v1.ObjectMeta{Name: name, Namespace: namespace}, Type: api_v1.SecretTypeTLS,
+		Data: map[string][]byte{api_v1.TLSCertKey: crt, api_v1.TLSPrivateKeyKey: key}}
+}
+
 // ---------------------------------------------------------------- main
 
 func main() {
@@ -952,6 +1051,7 @@ type Task struct {
 	MVNow   int    `json:"mvnow"`
 	All     []Res  `json:"all"`
 	AllRep  bool   `json:"allrep"` // updateAllConfigs has an object to report on
+	AllPre  []Op   `json:"allpre"` // the secret files updateAllConfigs rewrites before UpdateConfig
 }
 
 type SyncObs struct {
@@ -968,10 +1068,11 @@ type SyncObs struct {
 }
 
 type ctlRes struct {
-	kind  string // model kind: ing | vs | ts
-	task  string // task kind
-	svcs  []string
-	split bool
+	kind   string // model kind: ing | vs | ts
+	task   string // task kind
+	svcs   []string
+	split  bool
+	scaled bool // Ingress with nginx.org/limit-req-scale: its rate limit depends on the number of controller replicas
 }
 
 var ctlPool = map[string]ctlRes{
@@ -980,22 +1081,109 @@ var ctlPool = map[string]ctlRes{
 	"v": {kind: "vs", task: "virtualserver", svcs: []string{"v-svc"}},
 	"w": {kind: "vs", task: "virtualserver", svcs: []string{"w-svc0", "w-svc1"}, split: true},
 	"t": {kind: "ts", task: "transportserver", svcs: []string{"t-svc"}},
+	"s": {kind: "ing", task: "ingress", svcs: []string{"s-svc"}, scaled: true},
 }
-var ctlNames = []string{"a", "b", "v", "w", "t"}
-var ctlSvcs = []string{"a-svc", "b-svc", "v-svc", "w-svc0", "w-svc1", "t-svc", "z-svc"}
+var ctlNames = []string{"a", "b", "s", "v", "w", "t"}
+var ctlSvcs = []string{"a-svc", "b-svc", "s-svc", "v-svc", "w-svc0", "w-svc1", "t-svc", "z-svc"}
+
+// the controller's own namespace, Service and special Secrets
+const nicNS = "nginx-ingress"
+const nicSvc = "nic-svc"
+
+type secretRole struct {
+	name     string   // Secret name in nicNS
+	files    []string // files under secrets/
+	minLevel int      // MGMT level from which the Secret is special (0: always: -default-server-tls-secret, -wildcard-tls-secret)
+}
+
+var secretRoles = map[string]secretRole{
+	"default":    {name: "default-server-secret", files: []string{"default"}},
+	"wildcard":   {name: "wildcard-secret", files: []string{"wildcard"}},
+	"license":    {name: "license", files: []string{"license.jwt"}, minLevel: 1},
+	"clientauth": {name: "client-auth", files: []string{"mgmt/client"}, minLevel: 2},
+	"trustedca":  {name: "trusted-ca", files: []string{"mgmt/ca.crt", "mgmt/ca.crl"}, minLevel: 3},
+}
+var secretRoleNames = []string{"default", "wildcard", "license", "clientauth", "trustedca"}
+
+func (w *world) roleActive(role string) bool {
+	r := secretRoles[role]
+	return r.minLevel == 0 || (w.plus && w.mgmt >= r.minLevel)
+}
+
+// eager: does a configuration file on disk name the secret file literally?  Only the main configuration does:
+// the default server certificate when -ssl-dynamic-reload is off, and (Plus) the files of the mgmt block.
+func (w *world) eager(file string) bool {
+	if !w.mainOnDisk {
+		return false
+	}
+	switch file {
+	case "default":
+		return !w.dyns
+	case "license.jwt":
+		return w.plus
+	case "mgmt/client":
+		return w.plus && w.mgmt >= 2
+	case "mgmt/ca.crt", "mgmt/ca.crl":
+		return w.plus && w.mgmt >= 3
+	}
+	return false
+}
+
+func (w *world) secretWrites(role string) []Op {
+	var out []Op
+	for _, f := range secretRoles[role].files {
+		out = append(out, Op{Op: "secret", Name: f, Ver: w.sec[role], Eager: w.eager(f)})
+	}
+	return out
+}
+
+// allPre: what updateAllConfigs writes before UpdateConfig (Plus with the MGMT ConfigMap held): licence, trusted CA, client certificate
+func (w *world) allPre() []Op {
+	out := []Op{}
+	if w.plus && w.mgmtHeld {
+		for _, role := range []string{"license", "trustedca", "clientauth"} {
+			if w.roleActive(role) {
+				out = append(out, w.secretWrites(role)...)
+			}
+		}
+	}
+	return out
+}
+
+func (w *world) mainVer() int { return w.held + 10*w.mgv }
 
 // world is the harness's bookkeeping of the cluster and of what the controller has accepted.
 type world struct {
 	plus, dynw bool
-	obj        map[string]int // resource name -> spec variant of the object in the cluster
-	known      map[string]int // resource name -> spec variant the controller has configured
-	ev         map[string]int // service -> endpoints variant (0: no EndpointSlice)
-	cm         int            // ConfigMap variant in the cluster (0: none)
-	held       int            // ConfigMap variant the controller holds
+	obj        map[string]int  // resource name -> spec variant of the object in the cluster
+	known      map[string]int  // resource name -> spec variant the controller has configured
+	ev         map[string]int  // service -> endpoints variant (0: no EndpointSlice)
+	cm         int             // ConfigMap variant in the cluster (0: none)
+	held       int             // ConfigMap variant the controller holds
+	dyns       bool            // -ssl-dynamic-reload
+	mgmt       int             // level of the MGMT ConfigMap (Plus): which special Secrets it names
+	mgmtHeld   bool            // the controller has seen the MGMT ConfigMap
+	mgv        int             // variant of the MGMT ConfigMap the controller holds
+	sec        map[string]int  // special Secret role -> content variant in the cluster
+	secGone    map[string]bool // the Secret object has been deleted (the controller keeps the files)
+	ready      bool            // the start-up phase is over (bookkeeping of isNginxReady)
+	mainOnDisk bool            // the main configuration has been written
+	replicas   int             // ingressControllerReplicas
 }
 
 func newWorld(plus, dynw bool) *world {
-	return &world{plus: plus, dynw: dynw, obj: map[string]int{}, known: map[string]int{}, ev: map[string]int{}}
+	return &world{plus: plus, dynw: dynw, obj: map[string]int{}, known: map[string]int{}, ev: map[string]int{}, sec: map[string]int{}, secGone: map[string]bool{}}
+}
+
+func newWorldCase(c *Case) *world {
+	w := newWorld(c.Plus, c.DynW)
+	w.dyns, w.mgmt = c.DynS, c.MGMT
+	for _, role := range secretRoleNames {
+		if w.roleActive(role) {
+			w.sec[role] = 1 // present in the cluster from the beginning
+		}
+	}
+	return w
 }
 
 func (w *world) res(name string) Res {
@@ -1005,6 +1193,9 @@ func (w *world) res(name string) Res {
 	for _, s := range p.svcs {
 		ver += w.ev[s] * mul
 		mul *= 10
+	}
+	if p.scaled && w.replicas > 1 {
+		ver += 100 * w.replicas
 	}
 	r.Ver = ver
 	g := []string{}
@@ -1068,6 +1259,26 @@ func (w *world) predict(t *Task) {
 			t.Reports = false
 		}
 	case "endpointslice":
+		if t.Name == nicSvc {
+			// the EndpointSlice of the controller's own Service: t.EV ready endpoints
+			t.Reports = false // updateNumberOfIngressControllerReplicas only logs errors
+			if t.Act == "set" {
+				w.ev[nicSvc] = t.EV
+			} else if t.Act == "delete" {
+				w.ev[nicSvc] = 0
+			}
+			if n := w.ev[nicSvc]; n != 0 && n != w.replicas {
+				w.replicas = n
+				for _, name := range ctlNames {
+					if _, ok := w.known[name]; ok && ctlPool[name].scaled {
+						t.Found = true
+						r := w.res(name)
+						t.Work = append(t.Work, Op{Op: "add", Res: &r})
+					}
+				}
+			}
+			break
+		}
 		switch t.Act {
 		case "set":
 			w.ev[t.Name] = t.EV
@@ -1088,7 +1299,6 @@ func (w *world) predict(t *Task) {
 				}
 			}
 		}
-		t.Reports = false
 	case "configmap":
 		switch t.Act {
 		case "set":
@@ -1097,10 +1307,47 @@ func (w *world) predict(t *Task) {
 			w.cm = 0
 		}
 		w.held = w.cm
+	case "mgmtconfigmap":
+		if t.Act == "set" {
+			w.mgv = t.MV
+		}
+		w.mgmtHeld = true
+	case "secret":
+		if t.Act == "set" {
+			w.sec[t.Name] = t.SV
+			w.secGone[t.Name] = false
+		} else if t.Act == "delete" {
+			w.secGone[t.Name] = true
+		}
+		if !w.secGone[t.Name] && w.roleActive(t.Name) && w.sec[t.Name] != 0 {
+			t.Work = append(t.Work, w.secretWrites(t.Name)...)
+			switch t.Name {
+			case "default", "wildcard":
+				if !w.dyns {
+					t.Work = append(t.Work, Op{Op: "reload"})
+				}
+			case "license", "clientauth":
+				t.Work = append(t.Work, Op{Op: "reload"})
+			case "trustedca":
+				// lbc.updateAllConfigs(); performNGINXReload()
+				t.Work = append(t.Work, w.allPre()...)
+				t.Work = append(t.Work, Op{Op: "updateconfig", MV: w.mainVer(), Rs: w.all()})
+				w.mainOnDisk = true
+				t.Work = append(t.Work, Op{Op: "reload"})
+			}
+		}
 	}
-	t.MVNow = w.held
+	t.MVNow = w.mainVer()
 	t.All = w.all()
 	t.AllRep = len(t.All) > 0 || w.held != 0
+	t.AllPre = w.allPre()
+	// bookkeeping of the start-up phase: the sync that finds the queue empty writes the main configuration
+	if !w.ready && t.QLen == 0 {
+		w.ready = true
+		w.mainOnDisk = true
+	}
+	// (a ConfigMap task outside start-up and outside a batch, and a batch ending with updateAllConfigs, rewrite
+	// the main configuration too: it is on disk already then)
 }
 
 // ---- cluster objects
@@ -1108,14 +1355,14 @@ func (w *world) predict(t *Task) {
 func svcObj(name string) *api_v1.Service {
 	return &api_v1.Service{
 		ObjectMeta: meta_v1.ObjectMeta{Name: name, Namespace: ns},
-		Spec: api_v1.ServiceSpec{Ports: []api_v1.ServicePort{{Name: "p", Port: 80, TargetPort: intstr.FromInt(8080), Protocol: api_v1.ProtocolTCP}}},
+		Spec:       api_v1.ServiceSpec{Ports: []api_v1.ServicePort{{Name: "p", Port: 80, TargetPort: intstr.FromInt(8080), Protocol: api_v1.ProtocolTCP}}},
 	}
 }
 
 func sliceObj(svc string, ev int) *discovery_v1.EndpointSlice {
 	ready, port, pname := true, int32(8080), "p"
 	return &discovery_v1.EndpointSlice{
-		ObjectMeta: meta_v1.ObjectMeta{Name: svc + "-slice", Namespace: ns, Labels: map[string]string{"kubernetes.io/service-name": svc}},
+		ObjectMeta:  meta_v1.ObjectMeta{Name: svc + "-slice", Namespace: ns, Labels: map[string]string{"kubernetes.io/service-name": svc}},
 		AddressType: discovery_v1.AddressTypeIPv4,
 		Ports:       []discovery_v1.EndpointPort{{Name: &pname, Port: &port}},
 		Endpoints:   []discovery_v1.Endpoint{{Addresses: []string{fmt.Sprintf("10.0.%d.1", ev)}, Conditions: discovery_v1.EndpointConditions{Ready: &ready}}},
@@ -1126,7 +1373,53 @@ func ctlIngress(name string, sv int) *networking.Ingress {
 	ing := ingress(name, name+".example.com", sv, "", []string{"/"}, []string{ctlPool[name].svcs[0]})
 	pt := networking.PathTypePrefix
 	ing.Spec.Rules[0].HTTP.Paths[0].PathType = &pt
+	if ctlPool[name].scaled {
+		ing.Annotations["nginx.org/limit-req-rate"] = "12r/s"
+		ing.Annotations["nginx.org/limit-req-key"] = "${binary_remote_addr}"
+		ing.Annotations["nginx.org/limit-req-zone-size"] = "10m"
+		ing.Annotations["nginx.org/limit-req-scale"] = "true"
+	}
 	return ing
+}
+
+// nicSlice is the EndpointSlice of the controller's own Service with n ready endpoints.
+func nicSlice(n int) *discovery_v1.EndpointSlice {
+	ready, port, pname := true, int32(8080), "p"
+	sl := &discovery_v1.EndpointSlice{
+		ObjectMeta:  meta_v1.ObjectMeta{Name: nicSvc + "-slice", Namespace: nicNS, Labels: map[string]string{"kubernetes.io/service-name": nicSvc}},
+		AddressType: discovery_v1.AddressTypeIPv4,
+		Ports:       []discovery_v1.EndpointPort{{Name: &pname, Port: &port}},
+	}
+	for i := 0; i < n; i++ {
+		sl.Endpoints = append(sl.Endpoints, discovery_v1.Endpoint{Addresses: []string{fmt.Sprintf("10.9.0.%d", i+1)}, Conditions: discovery_v1.EndpointConditions{Ready: &ready}})
+	}
+	return sl
+}
+
+func secretObj(role string, v int) *api_v1.Secret {
+	r := secretRoles[role]
+	switch role {
+	case "license":
+		return &api_v1.Secret{ObjectMeta: meta_v1.ObjectMeta{Name: r.name, Namespace: nicNS}, Type: "nginx.com/license",
+			Data: map[string][]byte{"license.jwt": []byte(fmt.Sprintf("verif-jwt-%d", v))}}
+	case "trustedca":
+		crt, _ := tlsPair(100 + v)
+		return &api_v1.Secret{ObjectMeta: meta_v1.ObjectMeta{Name: r.name, Namespace: nicNS}, Type: "nginx.org/ca",
+			Data: map[string][]byte{"ca.crt": crt, "ca.crl": []byte(fmt.Sprintf("verif-crl-%d", v))}}
+	}
+	off := map[string]int{"default": 200, "wildcard": 300, "clientauth": 400}[role]
+	return tlsSecret(nicNS, r.name, off+v)
+}
+
+func mgmtCM(level, v int) *api_v1.ConfigMap {
+	d := map[string]string{"license-token-secret-name": secretRoles["license"].name, "usage-report-interval": fmt.Sprintf("%dh", 1+v)}
+	if level >= 2 {
+		d["ssl-certificate-secret-name"] = secretRoles["clientauth"].name
+	}
+	if level >= 3 {
+		d["ssl-trusted-certificate-secret-name"] = secretRoles["trustedca"].name
+	}
+	return &api_v1.ConfigMap{ObjectMeta: meta_v1.ObjectMeta{Name: "nginx-config-mgmt", Namespace: nicNS}, Data: d}
 }
 
 func ctlVS(name string, sv int) *conf_v1.VirtualServer {
@@ -1192,7 +1485,33 @@ func mutate(v *k8s.VerifC12, t Task) (string, error) {
 			return keyOf(t.Name), v.Remove("transportserver", ctlTS(t.Name, 0))
 		}
 		return keyOf(t.Name), nil
+	case "secret":
+		key := nicNS + "/" + secretRoles[t.Name].name
+		if t.Act == "set" {
+			o := secretObj(t.Name, t.SV)
+			if err := v.PutClientSecret(o); err != nil {
+				return key, err
+			}
+			return key, v.Put("secret", o)
+		} else if t.Act == "delete" {
+			return key, v.Remove("secret", secretObj(t.Name, 1)) // stays in the API server: the controller retains special Secrets
+		}
+		return key, nil
+	case "mgmtconfigmap":
+		if t.Act == "set" {
+			return k8s.VerifC12MGMTConfigMapKey, v.Put("mgmtconfigmap", mgmtCM(t.EV, t.MV))
+		}
+		return k8s.VerifC12MGMTConfigMapKey, nil
 	case "endpointslice":
+		if t.Name == nicSvc {
+			key := nicNS + "/" + nicSvc + "-slice"
+			if t.Act == "set" {
+				return key, v.Put("endpointslice", nicSlice(t.EV))
+			} else if t.Act == "delete" {
+				return key, v.Remove("endpointslice", nicSlice(0))
+			}
+			return key, nil
+		}
 		key := keyOf(t.Name + "-slice")
 		if t.Act == "set" {
 			return key, v.Put("endpointslice", sliceObj(t.Name, t.EV))
@@ -1246,15 +1565,41 @@ func eventHeads(evs []string) []string {
 
 func runCtl(c *Case) {
 	m := newRecMgr(c.RFail, c.AFail)
-	cnf, err := configs.VerifC12NewConfigurator(repoDir(), m, c.Plus, c.DynW)
+	cnf, err := configs.VerifC12NewConfiguratorSSL(repoDir(), m, c.Plus, c.DynW, c.DynS)
 	if err != nil {
 		c.Obs = map[string]string{"error": err.Error()}
 		return
 	}
-	v, err := k8s.VerifC12New(cnf, c.Plus, c.DynW, []conf_v1.Listener{{Name: "tcp-t", Port: 9000, Protocol: "TCP"}})
+	w0 := newWorldCase(c)
+	if c.Plus && c.MGMT >= 1 {
+		// as cmd/nginx-ingress does: the MGMT ConfigMap has been read before the controller is built
+		cnf.MgmtCfgParams.Secrets.License = secretRoles["license"].name
+		if c.MGMT >= 2 {
+			cnf.MgmtCfgParams.Secrets.ClientAuth = secretRoles["clientauth"].name
+		}
+		if c.MGMT >= 3 {
+			cnf.MgmtCfgParams.Secrets.TrustedCert = secretRoles["trustedca"].name
+		}
+	}
+	v, err := k8s.VerifC12NewOpts(cnf, k8s.VerifC12Opts{Plus: c.Plus, DynWeights: c.DynW,
+		Listeners:           []conf_v1.Listener{{Name: "tcp-t", Port: 9000, Protocol: "TCP"}},
+		DefaultServerSecret: nicNS + "/" + secretRoles["default"].name, WildcardTLSSecret: nicNS + "/" + secretRoles["wildcard"].name,
+		ExternalServiceName: nicSvc})
 	if err != nil {
 		c.Obs = map[string]string{"error": err.Error()}
 		return
+	}
+	for _, role := range secretRoleNames {
+		if w0.roleActive(role) {
+			o := secretObj(role, 1)
+			if err := v.PutClientSecret(o); err == nil {
+				err = v.Put("secret", o)
+			}
+			if err != nil {
+				c.Obs = map[string]string{"error": err.Error()}
+				return
+			}
+		}
 	}
 	for _, s := range ctlSvcs {
 		if err := v.Put("service", svcObj(s)); err != nil {
@@ -1300,6 +1645,34 @@ func runCtl(c *Case) {
 func genTask(r *vh.Rng, w *world) Task {
 	var t Task
 	switch x := r.Intn(100); {
+	case x < 10:
+		// a special Secret is rotated / re-delivered / deleted
+		var roles []string
+		for _, role := range secretRoleNames {
+			if w.roleActive(role) {
+				roles = append(roles, role)
+			}
+		}
+		t = Task{Kind: "secret", Name: vh.Pick(r, roles)}
+		switch y := r.Intn(10); {
+		case y < 7:
+			t.Act, t.SV = "set", 1+r.Intn(3)
+		case y < 9:
+			t.Act = "touch"
+		default:
+			t.Act = "delete"
+		}
+	case x < 16:
+		// the controller's own Service scales
+		t = Task{Kind: "endpointslice", Name: nicSvc, Act: "set", EV: 1 + r.Intn(3)}
+		if r.Chance(1, 6) {
+			t.Act = "touch"
+		}
+	case x < 19 && w.plus:
+		t = Task{Kind: "mgmtconfigmap", Name: "nginx-config-mgmt", Act: "set", MV: r.Intn(3), EV: w.mgmt}
+		if r.Chance(1, 3) {
+			t.Act = "touch"
+		}
 	case x < 40:
 		n := vh.Pick(r, ctlNames)
 		t = Task{Kind: ctlPool[n].task, Name: n}
@@ -1328,7 +1701,7 @@ func genTask(r *vh.Rng, w *world) Task {
 		t = Task{Kind: "configmap", Name: "nginx-config"}
 		if r.Chance(3, 4) {
 			t.Act, t.MV = "set", 1+r.Intn(3)
-		} else if r.Chance(1, 2) {
+		} else if r.Chance(1, 2) && w.mgmt < 3 {
 			t.Act = "delete"
 		} else {
 			t.Act = "touch"
@@ -1338,7 +1711,7 @@ func genTask(r *vh.Rng, w *world) Task {
 }
 
 func genCtl(r *vh.Rng, id int) Case {
-	c := Case{Fam: "ctl", ID: id, Plus: r.Chance(1, 2), DynW: r.Chance(1, 4)}
+	c := Case{Fam: "ctl", ID: id, Plus: r.Chance(1, 2), DynW: r.Chance(1, 4), DynS: r.Chance(1, 2)}
 	switch id % 3 {
 	case 0:
 		c.Class = "nofault"
@@ -1351,7 +1724,21 @@ func genCtl(r *vh.Rng, id int) Case {
 		c.RFail, c.AFail = pickFails(r, 30, 1, 4), pickFails(r, 40, 1, 4)
 		c.Plus = true
 	}
-	w := newWorld(c.Plus, c.DynW)
+	if c.Plus {
+		c.MGMT = 1 + r.Intn(3)
+	}
+	w := newWorldCase(&c)
+	var first []Task
+	if c.Plus {
+		// the MGMT ConfigMap is the first thing the informers deliver
+		first = []Task{{Kind: "mgmtconfigmap", Name: "nginx-config-mgmt", Act: "set", MV: 0, EV: c.MGMT}}
+		if c.MGMT >= 3 {
+			// the handler of the trusted-CA Secret runs updateAllConfigs() and then Reload(): two reloads whose failures are
+			// reported differently (resources / ConfigMap+GlobalConfiguration vs. the pod).  The model has one "has something
+			// to report on" flag per task, so these histories keep the NGINX ConfigMap: both are then always reportable.
+			first = append(first, Task{Kind: "configmap", Name: "nginx-config", Act: "set", MV: 1 + r.Intn(3)})
+		}
+	}
 	if id%5 == 4 {
 		// flags carried across batches: start-up, a few events, a batch that contains a ConfigMap (and other
 		// tasks), then a batch made only of EndpointSlices that no configured resource uses, then more events
@@ -1363,6 +1750,9 @@ func genCtl(r *vh.Rng, id int) Case {
 			t.QLen = q
 			w.predict(&t)
 			ts = append(ts, t)
+		}
+		for i, t := range first {
+			push(t, len(first)-i)
 		}
 		push(Task{Kind: "ingress", Name: "a", Act: "set", SV: r.Intn(3)}, 0)
 		for i := r.Intn(3); i > 0; i-- {
@@ -1415,6 +1805,9 @@ func genCtl(r *vh.Rng, id int) Case {
 	left := 0
 	for i := 0; i < n; i++ {
 		t := genTask(r, w)
+		if i < len(first) {
+			t = first[i]
+		}
 		switch {
 		case i < startup:
 			t.QLen = startup - i
@@ -1441,8 +1834,8 @@ func genCtl(r *vh.Rng, id int) Case {
 	return c
 }
 
-func mkTasks(plus, dynw bool, ts []Task) []Task {
-	w := newWorld(plus, dynw)
+func mkTasks(c *Case, ts []Task) []Task {
+	w := newWorldCase(c)
 	for i := range ts {
 		w.predict(&ts[i])
 	}
@@ -1451,11 +1844,18 @@ func mkTasks(plus, dynw bool, ts []Task) []Task {
 
 func corpusCtl() []Case {
 	var out []Case
+	addc := func(c Case, ts []Task) {
+		c.Fam = "ctl"
+		c.Tasks = mkTasks(&c, ts)
+		out = append(out, c)
+	}
 	add := func(class string, plus, dynw bool, rfail, afail []int, ts []Task) {
-		out = append(out, Case{Fam: "ctl", Class: class, Plus: plus, DynW: dynw, RFail: rfail, AFail: afail, Tasks: mkTasks(plus, dynw, ts)})
+		addc(Case{Class: class, Plus: plus, DynW: dynw, RFail: rfail, AFail: afail}, ts)
 	}
 	ing := func(n, act string, sv, q int) Task { return Task{Kind: "ingress", Name: n, Act: act, SV: sv, QLen: q} }
-	eps := func(s, act string, ev, q int) Task { return Task{Kind: "endpointslice", Name: s, Act: act, EV: ev, QLen: q} }
+	eps := func(s, act string, ev, q int) Task {
+		return Task{Kind: "endpointslice", Name: s, Act: act, EV: ev, QLen: q}
+	}
 	// F16a: an idle batch (two events for an unchanged Ingress) ends with a reload
 	add("corpus-idle-batch", false, false, []int{}, []int{},
 		[]Task{ing("a", "set", 0, 0), ing("a", "touch", 0, 2), ing("a", "touch", 0, 1), ing("a", "touch", 0, 0)})
@@ -1480,13 +1880,38 @@ func corpusCtl() []Case {
 			ing("a", "touch", 0, 2), ing("a", "touch", 0, 0)})
 	// state carried from one batch to the next: a batch with a ConfigMap, then a batch made only of
 	// EndpointSlices no resource uses (nothing NGINX reads can change) must not reload
-	cm := func(mv, q int) Task { return Task{Kind: "configmap", Name: "nginx-config", Act: "set", MV: mv, QLen: q} }
+	cm := func(mv, q int) Task {
+		return Task{Kind: "configmap", Name: "nginx-config", Act: "set", MV: mv, QLen: q}
+	}
 	add("corpus-cm-batch-then-idle-endp", false, false, []int{}, []int{},
 		[]Task{ing("a", "set", 0, 0), cm(1, 2), ing("a", "set", 1, 1), eps("a-svc", "set", 1, 0),
 			eps("z-svc", "set", 1, 2), eps("z-svc", "set", 2, 1), eps("z-svc", "delete", 0, 0)})
 	add("corpus-cm-batch-then-idle-endp", true, false, []int{}, []int{},
 		[]Task{ing("a", "set", 0, 0), eps("z-svc", "set", 1, 2), cm(2, 1), eps("b-svc", "set", 1, 0),
 			eps("b-svc", "set", 2, 3), eps("z-svc", "set", 2, 2), eps("v-svc", "set", 2, 1), eps("t-svc", "touch", 0, 0)})
+	// special Secrets: every role, -ssl-dynamic-reload on and off, outside start-up and outside a batch
+	sec := func(role, act string, v, q int) Task {
+		return Task{Kind: "secret", Name: role, Act: act, SV: v, QLen: q}
+	}
+	mg := func(level, v, q int) Task {
+		return Task{Kind: "mgmtconfigmap", Name: "nginx-config-mgmt", Act: "set", MV: v, EV: level, QLen: q}
+	}
+	for _, dyn := range []bool{true, false} {
+		addc(Case{Class: "corpus-special-secrets-plus", Plus: true, DynS: dyn, MGMT: 3, RFail: []int{}, AFail: []int{}},
+			[]Task{mg(3, 0, 1), ing("a", "set", 0, 0), sec("clientauth", "set", 2, 0), sec("default", "set", 2, 0), sec("wildcard", "set", 2, 0),
+				sec("license", "set", 2, 0), sec("trustedca", "set", 2, 0), sec("clientauth", "touch", 0, 0), mg(3, 1, 0),
+				sec("clientauth", "set", 3, 2), sec("license", "set", 3, 1), eps("z-svc", "set", 1, 0)})
+		addc(Case{Class: "corpus-special-secrets-oss", Plus: false, DynS: dyn, RFail: []int{}, AFail: []int{}},
+			[]Task{sec("default", "set", 2, 1), ing("a", "set", 0, 0), sec("default", "set", 3, 0), sec("wildcard", "set", 2, 0), sec("default", "delete", 0, 0)})
+	}
+	// the controller's own Service scales while an Ingress has a replica-scaled rate limit: alone, and inside a batch
+	// whose other tasks are EndpointSlices nothing uses
+	nic := func(n, q int) Task { return Task{Kind: "endpointslice", Name: nicSvc, Act: "set", EV: n, QLen: q} }
+	add("corpus-replicas", false, false, []int{}, []int{},
+		[]Task{ing("s", "set", 0, 0), nic(2, 0), nic(2, 0), eps("z-svc", "set", 1, 2), nic(3, 1), eps("z-svc", "set", 2, 0),
+			eps("z-svc", "set", 1, 3), eps("z-svc", "set", 3, 2), nic(1, 1), eps("z-svc", "set", 2, 0)})
+	add("corpus-replicas", true, false, []int{2}, []int{},
+		[]Task{ing("s", "set", 0, 0), ing("a", "set", 0, 0), nic(2, 0), nic(3, 0)})
 	// F15 at the controller: a VirtualServer with weight updates during start-up and in a batch
 	add("corpus-weights-batch", true, true, []int{}, []int{},
 		[]Task{{Kind: "virtualserver", Name: "w", Act: "set", SV: 0, QLen: 1}, ing("a", "set", 0, 0),
